@@ -281,6 +281,7 @@ type fline struct {
 	// oracle re-derives everything else from the bytes)
 	Key     *pkey
 	Corrupt string // corruption kind, "" if none
+	Long    string // name of the longVar this comment line was built from
 }
 
 type kfile struct {
@@ -291,6 +292,7 @@ type kfile struct {
 	BadPos  int // index among key lines of the corrupted one, -1 if none
 	BadKind string
 	BadType string
+	Long    string
 }
 
 func (f *kfile) Bytes() []byte {
@@ -346,9 +348,45 @@ func comment(rng *rand.Rand, identityFile bool, k *pkey) string {
 	return "# " + hexText(rng, 30)
 }
 
+// longVar is one kind of over-long #-comment line. Lines this long exceed the
+// 4096-byte default buffer of bufio.Reader (a parser built on ReadLine that
+// ignores isPrefix sees them as several lines) but stay below the 64 KiB token
+// limit of bufio.Scanner, which DESIGN puts outside the quantifier.
+type longVar struct {
+	Name string
+	Len  int // total length of a noise comment, '#' included (Boundary == 0)
+	// Boundary > 0: '#', Boundary-1 characters of noise, then a VALID key
+	// string of the file's kind: a commented-out key that must not count,
+	// placed exactly where a 4096-byte fragment would begin.
+	Boundary int
+}
+
+var longVars = []longVar{
+	{"len4095", 4095, 0}, {"len4096", 4096, 0}, {"len4097", 4097, 0},
+	{"len8191", 8191, 0}, {"len8192", 8192, 0}, {"len8193", 8193, 0},
+	{"len10000", 10000, 0}, {"len60000", 60000, 0},
+	{"key@4096", 0, 4096}, {"key@8192", 0, 8192}, {"key@57344", 0, 57344},
+}
+
+// longComment builds the line; embed is the key string for Boundary variants.
+func longComment(rng *rand.Rand, v longVar, embed string) string {
+	if v.Boundary == 0 {
+		return "#" + hexText(rng, v.Len-1)
+	}
+	return "#" + hexText(rng, v.Boundary-1) + embed
+}
+
+// insertLine puts l before element at of lines (at == len(lines): after all).
+func insertLine(lines []fline, at int, l fline) []fline {
+	out := append([]fline{}, lines[:at]...)
+	out = append(out, l)
+	return append(out, lines[at:]...)
+}
+
 var styles = []string{"bare", "keygen", "spaced", "random", "random2", "tail"}
 
-// assemble lays out the given key lines with comments and empty lines.
+// assemble lays out the given key lines (and ready-made comment lines, which
+// have no Key) with comments and empty lines.
 // style: bare | keygen (comment lines above each key) | spaced (empty line
 // between keys) | random* (0-2 fillers in every gap) | tail (fillers after the
 // last key only).
@@ -396,16 +434,23 @@ func assemble(rng *rand.Rand, keyLines []fline, style, eolMode string, finalNL, 
 			f.Lines[i].EOL = []string{"\n", "\r\n"}[rng.Intn(2)]
 		}
 	}
-	for i, kl := range keyLines {
+	pos := 0
+	for _, kl := range keyLines {
 		if kl.Corrupt != "" {
-			f.BadPos, f.BadKind, f.BadType = i, kl.Corrupt, kl.Key.Type
+			f.BadPos, f.BadKind, f.BadType = pos, kl.Corrupt, kl.Key.Type
+		}
+		if kl.Key != nil {
+			pos++
+		}
+		if kl.Long != "" {
+			f.Long = kl.Long
 		}
 	}
 	return f
 }
 
 func (f *kfile) describe() string {
-	return fmt.Sprintf("keys=%d style=%s eol=%s finalNL=%v bad=%d/%s", f.NKeys(), f.Style, f.EOLMode, f.FinalNL, f.BadPos, f.BadKind)
+	return fmt.Sprintf("keys=%d style=%s eol=%s finalNL=%v bad=%d/%s long=%s", f.NKeys(), f.Style, f.EOLMode, f.FinalNL, f.BadPos, f.BadKind, f.Long)
 }
 
 // pick returns n keys of the pool; distinct unless dup is set.
